@@ -439,6 +439,12 @@ def make_app(specs):
 
 def run_c18(rnd, tier, v, stats):
     N = 120 if tier == "quick" else 1500
+    # the shape the Responder.write contract assumes for httping.packChunk (contracts/http_responder.py: HEX(len) CRLF msg CRLF)
+    from hio.core.http import httping as _h
+    for m in (b"", b"a", b"\r\n", b"x" * 15, b"y" * 16, b"z" * 255, b"w" * 4096, bytes(range(256))):
+        stats["evals"] += 1
+        if _h.packChunk(m) != b"%x\r\n" % len(m) + m + b"\r\n":
+            v("C18/packChunk-shape-assumed-by-the-write-contract", dict(msg=m[:20].hex(), n=len(m)), _h.packChunk(m)[:40].hex(), None)
     for it in range(N):
         nreq = rnd.randint(1, 4)
         specs, reqs = [], []
